@@ -35,6 +35,12 @@ let fst = function
 let snd = function
 | (_, y) -> y
 
+(** val length : 'a1 list -> nat **)
+
+let rec length = function
+| [] -> O
+| _ :: l' -> S (length l')
+
 (** val app : 'a1 list -> 'a1 list -> 'a1 list **)
 
 let rec app l m =
@@ -1356,10 +1362,41 @@ let lit_term p =
 let lit_leb leb0 a b =
   leb0 (fst a) (fst b)
 
+(** val ltb0 : (term -> term -> bool) -> term -> term -> bool **)
+
+let ltb0 leb0 a b =
+  negb (leb0 b a)
+
+(** val sel_min :
+    (term -> term -> bool) -> term -> term -> term list -> (term * term
+    list) * bool **)
+
+let rec sel_min leb0 x0 best = function
+| [] -> ((best, []), false)
+| y :: r' ->
+  if ltb0 leb0 y best
+  then let (p, b) = sel_min leb0 x0 y r' in
+       let (m, r'') = p in
+       if b then ((m, (y :: r'')), true) else ((y, (x0 :: r')), true)
+  else let (p, rep) = sel_min leb0 x0 best r' in
+       let (m, r'') = p in ((m, (y :: r'')), rep)
+
+(** val sel_sort : (term -> term -> bool) -> nat -> term list -> term list **)
+
+let rec sel_sort leb0 fuel l =
+  match fuel with
+  | O -> l
+  | S n ->
+    (match l with
+     | [] -> l
+     | x :: r ->
+       let (p, _) = sel_min leb0 x x r in
+       let (m, r') = p in m :: (sel_sort leb0 n r'))
+
 (** val tsort : (term -> term -> bool) -> term list -> term list **)
 
-let tsort =
-  isort
+let tsort leb0 l =
+  sel_sort leb0 (length l) l
 
 (** val and_scan : lit option -> lit list -> lit list option **)
 
@@ -1527,8 +1564,7 @@ let core_mkBinaryEq leb0 lhs rhs =
                                      else if is_false rhs
                                           then Some (mkNot_raw lhs)
                                           else Some (TApp (OEq,
-                                                 (tsort leb0
-                                                   (lhs :: (rhs :: [])))))
+                                                 (lhs :: (rhs :: []))))
                  else Some (TApp (OEq, (tsort leb0 (lhs :: (rhs :: [])))))
 
 (** val eq_chain :
@@ -1783,17 +1819,17 @@ let pnorm p =
 let num s q0 =
   TNum (s, (qred q0), O)
 
-(** val mono_term : sort -> mono -> term **)
+(** val mono_term : (term -> term -> bool) -> sort -> mono -> term **)
 
-let mono_term s m =
+let mono_term leb0 s m =
   if qeq_bool (snd m) { qnum = (Zpos XH); qden = XH }
   then fst m
-  else TApp (OTimes, ((num s (snd m)) :: ((fst m) :: [])))
+  else TApp (OTimes, (tsort leb0 ((num s (snd m)) :: ((fst m) :: []))))
 
-(** val to_term : sort -> poly -> term **)
+(** val to_term : (term -> term -> bool) -> sort -> poly -> term **)
 
-let to_term s p =
-  let fs = map (mono_term s) (filter nonzero (fst p)) in
+let to_term leb0 s p =
+  let fs = map (mono_term leb0 s) (filter nonzero (fst p)) in
   let all =
     app fs
       (if qeq_bool (snd p) { qnum = Z0; qden = XH }
@@ -1802,9 +1838,10 @@ let to_term s p =
   in
   (match all with
    | [] -> num s { qnum = Z0; qden = XH }
-   | t :: l -> (match l with
-                | [] -> t
-                | _ :: _ -> TApp (OPlus, all)))
+   | t :: l ->
+     (match l with
+      | [] -> t
+      | _ :: _ -> TApp (OPlus, (tsort leb0 all))))
 
 (** val same_num_sort : term list -> sort option **)
 
@@ -1816,38 +1853,38 @@ let same_num_sort = function
   then Some s
   else None
 
-(** val mkPlus : term list -> term option **)
+(** val mkPlus : (term -> term -> bool) -> term list -> term option **)
 
-let mkPlus args =
+let mkPlus leb0 args =
   match same_num_sort args with
   | Some s ->
     (match psum (map linearize args) with
-     | Some p -> Some (to_term s (pnorm p))
+     | Some p -> Some (to_term leb0 s (pnorm p))
      | None -> None)
   | None -> None
 
-(** val mkNeg : term -> term option **)
+(** val mkNeg : (term -> term -> bool) -> term -> term option **)
 
-let mkNeg t =
+let mkNeg leb0 t =
   if negb (is_num_sort (sort_of t))
   then None
   else (match linearize t with
         | Some p ->
           Some
-            (to_term (sort_of t)
+            (to_term leb0 (sort_of t)
               (pnorm (pscale { qnum = (Zneg XH); qden = XH } p)))
         | None -> None)
 
-(** val mkMinus : term list -> term option **)
+(** val mkMinus : (term -> term -> bool) -> term list -> term option **)
 
-let mkMinus = function
+let mkMinus leb0 = function
 | [] -> None
 | a :: r ->
   (match r with
-   | [] -> mkNeg a
+   | [] -> mkNeg leb0 a
    | _ :: _ ->
-     (match sequence (map mkNeg r) with
-      | Some nr -> mkPlus (a :: nr)
+     (match sequence (map (mkNeg leb0) r) with
+      | Some nr -> mkPlus leb0 (a :: nr)
       | None -> None))
 
 (** val flatten_times : term list -> term list **)
@@ -1867,9 +1904,10 @@ let last_only l =
   | [] -> []
   | x :: _ -> x :: []
 
-(** val mkTimes : bool -> term list -> term option **)
+(** val mkTimes :
+    (term -> term -> bool) -> bool -> term list -> term option **)
 
-let mkTimes fixed args =
+let mkTimes leb0 fixed args =
   match same_num_sort args with
   | Some s ->
     let fl = flatten_times args in
@@ -1894,14 +1932,14 @@ let mkTimes fixed args =
                (match l with
                 | [] ->
                   (match linearize e with
-                   | Some p -> Some (to_term s (pnorm (pscale k p)))
+                   | Some p -> Some (to_term leb0 s (pnorm (pscale k p)))
                    | None -> None)
                 | _ :: _ -> None)))
   | None -> None
 
-(** val mkRealDiv : term list -> term option **)
+(** val mkRealDiv : (term -> term -> bool) -> term list -> term option **)
 
-let mkRealDiv = function
+let mkRealDiv leb0 = function
 | [] -> None
 | a :: l ->
   (match l with
@@ -1919,7 +1957,7 @@ let mkRealDiv = function
                   else (match linearize a with
                         | Some p ->
                           Some
-                            (to_term SReal
+                            (to_term leb0 SReal
                               (pnorm (pscale (qinv (num_val b)) p)))
                         | None -> None)
       | _ :: _ -> None))
@@ -1929,9 +1967,9 @@ let mkRealDiv = function
 let int_of t =
   qfloor (num_val t)
 
-(** val mkIntDiv : term list -> term option **)
+(** val mkIntDiv : (term -> term -> bool) -> term list -> term option **)
 
-let mkIntDiv = function
+let mkIntDiv leb0 = function
 | [] -> None
 | a :: l ->
   (match l with
@@ -1949,7 +1987,7 @@ let mkIntDiv = function
                        then Some a
                        else if qeq_bool (num_val b) { qnum = (Zneg XH);
                                  qden = XH }
-                            then mkNeg a
+                            then mkNeg leb0 a
                             else if is_num_const a
                                  then option_map (fun z0 ->
                                         num SInt (inject_Z z0))
@@ -2038,10 +2076,12 @@ let leq_of_poly leb0 s = function
                                                            (snd m)
                                                       then fst m
                                                       else TApp (OTimes,
-                                                             ((num s { qnum =
-                                                                (Zneg XH);
-                                                                qden = XH }) :: (
-                                                             (fst m) :: [])))) :: []))))
+                                                             (tsort leb0
+                                                               ((num s
+                                                                  { qnum =
+                                                                  (Zneg XH);
+                                                                  qden = XH }) :: (
+                                                               (fst m) :: []))))) :: []))))
         else (match norm_div leb0 s ms with
               | Some d ->
                 let bound = qdiv (qopp c) d in
@@ -2051,8 +2091,8 @@ let leq_of_poly leb0 s = function
                   | _ -> bound
                 in
                 Some (TApp (OLeq,
-                ((num s bound0) :: ((to_term s ((scale_monos d ms), { qnum =
-                                      Z0; qden = XH })) :: []))))
+                ((num s bound0) :: ((to_term leb0 s ((scale_monos d ms),
+                                      { qnum = Z0; qden = XH })) :: []))))
               | None -> None)
       | _ :: _ ->
         (match norm_div leb0 s ms with
@@ -2064,8 +2104,8 @@ let leq_of_poly leb0 s = function
              | _ -> bound
            in
            Some (TApp (OLeq,
-           ((num s bound0) :: ((to_term s ((scale_monos d ms), { qnum = Z0;
-                                 qden = XH })) :: []))))
+           ((num s bound0) :: ((to_term leb0 s ((scale_monos d ms), { qnum =
+                                 Z0; qden = XH })) :: []))))
          | None -> None)))
 
 (** val diff_poly : term -> term -> poly option **)
@@ -2178,7 +2218,7 @@ let eq_of_poly leb0 s = function
                      in
                      let lhs' = if neg then qopp lhs else lhs in
                      core_mkBinaryEq leb0 (num s lhs')
-                       (to_term s (ms'', { qnum = Z0; qden = XH }))
+                       (to_term leb0 s (ms'', { qnum = Z0; qden = XH }))
               | None -> None)
       | _ :: _ ->
         (match norm_div leb0 s ms with
@@ -2199,7 +2239,7 @@ let eq_of_poly leb0 s = function
                 in
                 let lhs' = if neg then qopp lhs else lhs in
                 core_mkBinaryEq leb0 (num s lhs')
-                  (to_term s (ms'', { qnum = Z0; qden = XH }))
+                  (to_term leb0 s (ms'', { qnum = Z0; qden = XH }))
          | None -> None)))
 
 (** val arith_mkBinaryEq :
